@@ -467,7 +467,7 @@ class HelicityAmplitudeBuilder:
     def __define_missing_amplitudes(self, intensity: PoolSum) -> None:
         """Define amplitudes of spin combinations without any transition as zero."""
         unfolded_intensity = _unfold_poolsums(intensity.evaluate())
-        for symbol in unfolded_intensity.atoms(sp.Indexed):
+        for symbol in sorted(unfolded_intensity.atoms(sp.Indexed), key=str):
             if symbol not in self.__ingredients.amplitudes:
                 self.__ingredients.amplitudes[symbol] = sp.S.Zero
 
